@@ -64,6 +64,12 @@ func c10Messages() []c10Msg {
 			p["context"] = map[string]interface{}{"triggerKind": 1}
 			return raw(s, "textDocument/completion", p)
 		}},
+		{"completion-v", false, func(s *drv.Server) string {
+			// a second completion with another (shorter) candidate list: replies must not share storage
+			p := pos(s, "a.lua", 1, 11)
+			p["context"] = map[string]interface{}{"triggerKind": 1}
+			return raw(s, "textDocument/completion", p)
+		}},
 		{"hover-b", false, func(s *drv.Server) string { return raw(s, "textDocument/hover", pos(s, "b.lua", 0, 7)) }},
 		{"didChange", true, func(s *drv.Server) string { s.ChangeFull("a.lua", c10AChanged); return "" }},
 		{"didSave", true, func(s *drv.Server) string {
@@ -232,6 +238,8 @@ func c10Space(tier string) *core.Space {
 				}
 				defer drv.RemoveWorkspace(root)
 				defer s.Close()
+				// jrpc2 encodes a reply after the handler has returned: other handlers may run in between
+				s.AfterHandler = func() { vrt.Yield("before-reply-encoding") }
 				// dispatcher model M1: a handler starts when every earlier notification has finished
 				done := make([]*vrt.WaitGroup, len(sc.msgs))
 				for k := range sc.msgs {
